@@ -154,9 +154,15 @@ def helpFlags : List Tok → List Param → List Bool
 
 def helpOK (o : TaskOpts) (ps : List Param) : Bool := (helpLeft o.help ps).isEmpty || o.ignoreUnknownHelp
 
-/-- `Task.get_arguments` -/
+/-- `arg_opts` refuses a parameter whose CLI name would be empty: `"_" in name` and nothing is left after
+    `translate_underscores` (a name made of underscores only) -/
+def blankName (p : Param) : Bool := hasUnderscore p.name && (translateUnderscores p.name).isEmpty
+
+/-- `Task.get_arguments`: `ValueError` from `arg_opts` for a blank name (raised inside the loop, i.e. first),
+    then the leftover-help `ValueError` -/
 def getArguments (o : TaskOpts) (ps : List Param) : Except Err (List ArgSpec) :=
-  if helpOK o ps then .ok (argList o ps) else .error (.other "ValueError" "unknown-help")
+  if ps.any blankName then .error (.other "ValueError" "blank-name")
+  else if helpOK o ps then .ok (argList o ps) else .error (.other "ValueError" "unknown-help")
 
 /-! ## `ParserContext.add_arg` with the inverse-flag uniqueness checks -/
 
@@ -241,5 +247,13 @@ def buildArgsPinned (o : TaskOpts) (positional : List Tok) : List Param → List
       buildArgsPinned o positional ps (taken ++ (argOptsPinned o positional p taken).names)
 def argListPinned (o : TaskOpts) (ps : List Param) : List ArgSpec :=
   reorder (positionalNames o ps) (buildArgsPinned o (positionalNames o ps) ps (ps.map Param.name))
+
+/-- `get_arguments` / context building before fix #29: a blank name was not refused -/
+def getArgumentsPinned29 (o : TaskOpts) (ps : List Param) : Except Err (List ArgSpec) :=
+  if helpOK o ps then .ok (argList o ps) else .error (.other "ValueError" "unknown-help")
+def mkCtxPinned29 (name : Tok) (o : TaskOpts) (ps : List Param) : Except Err Ctx :=
+  match getArgumentsPinned29 o ps with
+  | .error e => .error e
+  | .ok args => Ctx.ofSpecsChecked (some name) [] args
 
 end Inv
